@@ -27,7 +27,7 @@ Config(orient, info, infow, hp, vals, label, nin, nout, nann, nr, style) ==
 
 Infos == {<<"", "narrow">>, <<"Item nm", "narrow">>, <<"Item nm", "equal">>}
 Sizes == IF Deep THEN {<<1, 1>>, <<2, 3>>, <<3, 2>>, <<4, 5>>, <<5, 8>>} ELSE {<<1, 1>>, <<2, 3>>, <<5, 8>>}
-Styles == {"tight", "wide", "multi"}
+Styles == {"tight", "wide", "multi", "multicentre"}       \* multicentre: multi-line cells, every text centred in its cell in both directions
 Layouts == {Config(o, inf[1], inf[2], hp, v, l, sz[1], nout, nann, sz[2], st) :
               o \in {"rows", "cols"}, inf \in Infos, hp \in (IF Deep THEN {"U", "C+", "F"} ELSE {"F"}), v \in BOOLEAN, l \in BOOLEAN,
               sz \in Sizes, nout \in 1..3, nann \in 0..2, st \in Styles}
